@@ -28,7 +28,7 @@ ASSUMPTIONS = ["oracle: reference reader R on input and output; scheme-less outp
 FLOORS = ["judged", "unparseable-returned-unchanged", "host-label-dropped", "host-amp-prefix-dropped", "query-item-deleted", "index-dropped", "amp-path-dropped", "trailing-slash-dropped",
           "fragment-kept-routing", "fragment-dropped", "userinfo-kept", "scheme-kept", "neighbour-checked", "opt-off:sort_query", "opt-off:strip_authentication", "opt-off:strip_trailing_slash",
           "opt-off:strip_index", "opt-off:strip_protocol", "opt-off:strip_irrelevant_subdomains", "opt-off:strip_fragment", "opt-off:normalize_amp", "opt-off:fix_common_mistakes",
-          "opt-off:infer_redirection", "port-nondefault-kept", "amp-entity-repaired"]
+          "opt-off:infer_redirection", "port-nondefault-kept", "amp-entity-repaired", "failpoint-checked"]
 PROBE_FLOORS = ["normalize_url", "should_strip_query_item"]
 
 SWITCHES = ["sort_query", "strip_authentication", "strip_trailing_slash", "strip_index", "strip_protocol", "strip_irrelevant_subdomains", "normalize_amp", "fix_common_mistakes", "infer_redirection"]
@@ -396,6 +396,55 @@ def pairwise_vectors(rng, n):
         yield d
 
 
+def failpoints(ctx, fn):
+    """Fault injection at an existing error boundary: urlsplit (as bound in normalize_url's module) raises ValueError on its k-th call,
+    for every k a clean run reaches; the documented fallback is to return the argument itself, whatever the options."""
+    import importlib
+    nm = importlib.import_module("ural.normalize_url")
+    orig = nm.urlsplit
+    urls = ["http://www.example.com/a/?b=1#c", "example.com", "https://user:pw@m.example.com:8080/index.html?utm_source=x", "http://r.example.net/out?url=https%3A%2F%2Fwww.example.com%2Fa"]
+    vectors = [dict(DEFAULTS), dict(DEFAULTS, strip_protocol=False, strip_authentication=False), dict(DEFAULTS, infer_redirection=False, sort_query=False)]
+    for u in urls:
+        for opts in vectors:
+            for extra in ({}, {"quoted": True}, {"platform_aware": True}):
+                # how many times does a clean run call the module's urlsplit?
+                calls = {"n": 0}
+
+                def counting(*a, **k):
+                    calls["n"] += 1
+                    return orig(*a, **k)
+
+                nm.urlsplit = counting
+                try:
+                    fn(u, **dict(opts, **extra))
+                finally:
+                    nm.urlsplit = orig
+                for k in range(1, calls["n"] + 1):
+                    seen = {"n": 0}
+
+                    def failing(*a, **kw):
+                        seen["n"] += 1
+                        if seen["n"] == k:
+                            raise ValueError("failpoint")
+                        return orig(*a, **kw)
+
+                    nm.urlsplit = failing
+                    try:
+                        try:
+                            out = fn(u, **dict(opts, **extra))
+                        except Exception as e:
+                            ctx.viol("C05:failpoint:raises:" + type(e).__name__, {"url": u, "options_off": [x for x in SWITCHES if not opts[x]], "strip_fragment": opts["strip_fragment"], "extra": extra, "failpoint_k": k}, {"exc": repr(e)[:100]})
+                            continue
+                        finally:
+                            nm.urlsplit = orig
+                        ctx.ev()
+                        ctx.count("failpoint-checked")
+                        if out is not u and out != u:
+                            ctx.viol("C05:failpoint:argument-not-returned", {"url": u, "options_off": [x for x in SWITCHES if not opts[x]], "strip_fragment": opts["strip_fragment"], "extra": extra, "failpoint_k": k}, {"out": out})
+                    finally:
+                        nm.urlsplit = orig
+
+
 def nontrivial_input(u):
     return any(c in u for c in "@?#") or "www" in u.lower() or "m." in u or u.endswith("/") or "index" in u or "amp" in u or "://" in u
 
@@ -436,6 +485,9 @@ def run(ctx):
             ctx.cls("directed" if ui < len(DIRECTED) else "unparseable")
         ctx.exhaustive_space("all 1536 option vectors x %d directed and %d unparseable inputs" % (len(DIRECTED), len(UNPARSEABLE)), n_here)
         if ctx.shard == 0:
+            pr.stop()
+            failpoints(ctx, fn)
+            pr.start()
             ctx.sample("directed", DIRECTED[:6])
             ctx.sample("unparseable", UNPARSEABLE)
         n = 0
@@ -481,5 +533,7 @@ def replay(ctx, witness):
         opts[k] = False
     opts["strip_fragment"] = witness.get("strip_fragment", "except-routing")
     rout, out = judge(ctx, fn, infer, strip_item, witness["url"], opts, witness.get("extra") or {})
+    if "failpoint_k" in witness:
+        failpoints(ctx, fn)
     if "flipped" in witness:
         neighbours(ctx, fn, infer, strip_item, witness["url"], opts, rout)
